@@ -28,6 +28,9 @@ def entries():
     R('C01', 'break/converged_at_ten_times_tol', 'solver.py', r'if l2_last < var\.tol\*var\.l2_refe:', 'if l2_last < 10*var.tol*var.l2_refe:', 'violation')
     R('C02', 'break/stencil_index_shift', 'core.py', r'izm = max\(0, iz-1\)', 'izm = max(0, iz-2)', 'violation')
     R('C03', 'break/y_lines_dropped_for_xyz', 'solver.py', r'if c_lr_dir in \[2, 4, 6, 7\]', 'if c_lr_dir in [2, 4, 6]', 'violation', only='dispatch')
+    # core.solve for line lengths beyond the SSA proofs (n = 5*16+1 etc. behave the same): caught by the symbolic-n invariants
+    R('C03', 'break/solve_backward_band_one_short', 'core.py', r'for k in range\(j\+1, min\(n, j\+6\)\):', 'for k in range(j+1, min(n, j+5)):', 'violation', only='solve')
+    R('C03', 'break/solve_last_pivot_not_inverted', 'core.py', r'amat\[6\*\(n-1\)\] = d  # Last one', 'amat[6*(n-1)] = amat[6*(n-1)]  # Last one', 'violation', only='solve')
     R('C05', 'break/two_cells_halved', 'solver.py', r'grid\.shape_cells\[1\] < 3', 'grid.shape_cells[1] < 2', 'violation')
     R('C14', 'break/natural_log_in_lg_map', 'maps.py', r'return np\.log10\(conductivity\)', 'return np.log(conductivity)', 'violation')
     R('C16', 'break/use_up_rounds_down_twice', 'meshes.py', r'nr \+= int\(np\.ceil\(remain/2\)\)', 'nr += int(np.floor(remain/2))', 'violation')
@@ -38,6 +41,7 @@ def entries():
       'elif not np.isfinite(l2_last) or l2_last > 10*var.l2_refe:', 'held')
     R('C02', 'harmless/commuted_index_sum', 'core.py', r'izp = iz\+1', 'izp = 1+iz', 'held')
     R('C03', 'harmless/grid_passed_by_keyword', 'solver.py', r'c_lr_dir = _current_lr_dir\(lr_dir, model\.grid\)', 'c_lr_dir = _current_lr_dir(lr_dir, grid=model.grid)', 'held', only='dispatch')
+    R('C03', 'harmless/solve_commuted_product', 'core.py', r'h \+= amat\[j\+5\*k\]\*bvec\[k\]', 'h += bvec[k]*amat[j+5*k]', 'held', only='solve')
     R('C05', 'harmless/reordered_disjunction', 'solver.py', r'xsc_dir = \(grid\.shape_cells\[0\] % 2 != 0 or grid\.shape_cells\[0\] < 3',
       'xsc_dir = (grid.shape_cells[0] < 3 or grid.shape_cells[0] % 2 != 0', 'held')
     R('C14', 'harmless/float_base', 'maps.py', r'return 10\*\*mapped', 'return 10.0**mapped', 'held')
